@@ -20,18 +20,31 @@ Section C20.
   Hypothesis ft_total : u_ftarget U <> OutOfFuel.
   Hypothesis gt_total : u_gtol U <> OutOfFuel.
 
-  (* If the run ends with exception e, then e is the exception raised by the last user call of the trace,
-     every earlier user call returned normally and (the trace ending there) nothing was called afterwards. *)
-  Theorem C20_propagation : forall e tr, run U K c = (Raise e, tr) ->
-    exists tr0 ev, tr = tr0 ++ [ev] /\ all_ok ev_status tr0 /\ ev_status ev = Some e.
+  (* Whatever the run does, a user call that raises is the LAST user call of the run and the exception it
+     raised (same class name, same message) is the outcome of the run: it is neither swallowed, nor converted
+     into a result, nor replaced by another exception, and nothing is called afterwards.
+     Holds for every kind of callable (objective, gradient, callback, update function, scaler, ftarget(), gtol()),
+     every call index, every kernel / line-search behaviour, with or without checkpoint. *)
+  Theorem C20_propagation : forall out tr tr0 ev tr1 e,
+    run U K c = (out, tr) -> tr = tr0 ++ ev :: tr1 -> ev_status ev = Some e -> tr1 = [] /\ out = Raise e.
+  Proof.
+    intros out tr tr0 ev tr1 e H Ht He.
+    pose proof (wf_run U K c uf_total ug_total fd_ok cb_total upd_total sc_total ft_total gt_total) as W.
+    pose proof (wf_failing_call_is_last ev_status (internal c) _ W tr0 ev tr1 e) as L. rewrite H in L. cbn in L. auto.
+  Qed.
+
+  (* Conversely an exception that reaches the caller is the one raised by the last user call, unless it is the
+     package's own argument validation (x0 differs from checkpoint.x, x0 outside the bounds, lb > ub, empty x0),
+     which is raised when no user call has failed. *)
+  Theorem C20_only_user_exceptions : forall e tr, run U K c = (Raise e, tr) ->
+    (exists tr0 ev, tr = tr0 ++ [ev] /\ all_ok ev_status tr0 /\ ev_status ev = Some e) \/ (all_ok ev_status tr /\ (e = ck_mismatch \/ bounds_error c = Some e)).
   Proof.
     intros e tr H.
     pose proof (wf_run U K c uf_total ug_total fd_ok cb_total upd_total sc_total ft_total gt_total) as W.
     rewrite H in W. exact W.
   Qed.
 
-  (* Conversely a run that returns a result has seen no failing user call: no exception is swallowed or
-     converted into a result. *)
+  (* A run that returns a result has seen no failing user call. *)
   Theorem C20_nothing_swallowed : forall r tr, run U K c = (Ok r, tr) -> all_ok ev_status tr.
   Proof.
     intros r tr H.
@@ -41,6 +54,7 @@ Section C20.
 End C20.
 
 Print Assumptions C20_propagation.
+Print Assumptions C20_only_user_exceptions.
 Print Assumptions C20_nothing_swallowed.
 
 (* Non-vacuity: a one-variable run whose gradient raises at its first call. *)
